@@ -554,6 +554,13 @@ func newSlim(keys []string, bytesValues [][]byte, opt *Opt) (*Slim, error) {
 			idxs[i] = bmtree.PathToIndex(bitmapSize, p)
 		}
 
+		// A node that stores only the length of its prefix keeps it in 16 bits,
+		// in unit of 4 bits.
+		if !*opt.InnerPrefix && (wordStart-o.fromKeyBit)>>2 > 0xffff {
+			return nil, errors.Wrapf(ErrStepTooLong,
+				"keys[%d:%d] share %d bits from bit %d", s, e, wordStart-o.fromKeyBit, o.fromKeyBit)
+		}
+
 		// Without the bits of label word at parent node
 		c.addInner(nid, idxs, bitmapSize, o.fromKeyBit, wordStart, keys[s])
 
